@@ -166,3 +166,47 @@ def hash_order_uses(tree):
         if isinstance(n, ast.Call) and isinstance(n.func, ast.Name) and n.func.id in ("set", "frozenset", "id"):
             out.append((n.lineno, f"{n.func.id}()"))
     return out
+
+
+def prefix_is_pure(fn, stop_call=("copy", "deepcopy"), allowed_calls=("isinstance", "len", "ValueError", "TypeError")):
+    """Frame scan for a validation prefix: the statements of `fn` before the first
+    statement that calls <stop_call> may not store to an attribute or subscript, delete,
+    or call anything but the allowed builtins / exception constructors and `self.<method>`
+    listed in allowed_calls.  Returns (findings, number of prefix statements)."""
+    findings = []
+    nprefix = 0
+
+    def is_stop(stmt):
+        for n in ast.walk(stmt):
+            if isinstance(n, ast.Call) and isinstance(n.func, ast.Attribute) and n.func.attr == stop_call[1] \
+                    and isinstance(n.func.value, ast.Name) and n.func.value.id == stop_call[0]:
+                return True
+        return False
+    for stmt in fn.body:
+        if is_stop(stmt):
+            break
+        nprefix += 1
+        for n in ast.walk(stmt):
+            targets = []
+            if isinstance(n, ast.Assign):
+                targets = n.targets
+            elif isinstance(n, (ast.AugAssign, ast.AnnAssign)):
+                targets = [n.target]
+            elif isinstance(n, ast.Delete):
+                targets = n.targets
+            for t in targets:
+                for x in ast.walk(t):
+                    if isinstance(x, (ast.Attribute, ast.Subscript)) and isinstance(getattr(x, "ctx", None), (ast.Store, ast.Del)):
+                        findings.append((x.lineno, f"store to {ast.unparse(x)} before the arguments are validated"))
+            if isinstance(n, ast.Call):
+                f = n.func
+                if isinstance(f, ast.Name):
+                    if f.id not in allowed_calls:
+                        findings.append((n.lineno, f"call to {f.id}() in the validation prefix"))
+                elif isinstance(f, ast.Attribute):
+                    if isinstance(f.value, ast.Name) and f.value.id == "self" and f"self.{f.attr}" in allowed_calls:
+                        continue
+                    findings.append((n.lineno, f"call to {ast.unparse(f)}() in the validation prefix"))
+    else:
+        findings.append((fn.lineno, "no call to copy.deepcopy found: cannot delimit the validation prefix"))
+    return findings, nprefix
